@@ -82,6 +82,12 @@ func rulesC16(c *Ctx) {
 		if len(hcall.Args) == 3 {
 			inVar = th.ObjOf(hcall.Args[2])
 		}
+		// the decode target belongs to this call: it is declared inside the per-call closure (hoisted out of it, one value is
+		// shared by all calls of the tool — fields a request omits keep what an earlier request put there, and concurrent
+		// calls race on it)
+		if iv, isV := inVar.(*types.Var); isV && th.Lit != nil {
+			c.Check(th.Lit.Pos() <= iv.Pos() && iv.Pos() < th.Lit.End(), "handler:input-value-is-per-call", th, hcall, "the value the arguments are decoded into is declared inside the handler closure")
+		}
 		nDec := 0
 		for _, v := range g.Vertices(func(n ast.Node) bool {
 			for _, call := range th.AllCalls(n, false) {
@@ -283,6 +289,23 @@ func rulesC16(c *Ctx) {
 			}
 		}
 		c.Need(len(defV) >= 1 && len(valV) == 1 && subject != nil, "applySchema: ApplyDefaults and Validate calls")
+		// a null output is turned into an empty object only for a schema whose root type is "object" (for an array or
+		// nullable schema, {} is a different value — and usually an invalid one)
+		for _, w := range Writes(as.Body, false) {
+			ce, isC := ast.Unparen(w.RHS).(*ast.CallExpr)
+			if w.RHS == nil || !isC || as.BuiltinName(ce) != "make" || as.ObjOf(w.LHS) != subject {
+				continue
+			}
+			if _, isMap := as.TypeOf(ce.Args[0]).Underlying().(*types.Map); !isMap {
+				continue
+			}
+			gs := ag.GuardsAt(ag.VertexOf(w.Stmt))
+			c.Check(hasAtom(gs, func(a Atom) bool {
+				_, y, op, ok := binaryCmp(a.E)
+				sv, isS := as.ConstString(y)
+				return ok && op == token.EQL && a.Val && isS && sv == "object"
+			}), "applySchema:null-becomes-object-only-for-object-schemas", as, w.Stmt, "the {} that replaces a null value is installed only under `Type == \"object\"` (guards: %s)", atomsString(gs))
+		}
 		for i, dv := range defV {
 			call := as.AllCalls(ag.Node(dv), false)
 			same := false
